@@ -54,12 +54,12 @@ func run(c *harness.Ctx) {
 
 func main() {
 	harness.Main(&harness.Spec{
-		Property: "C01",
-		Level:    "exploration",
-		Rule:     "histories of 2-10 Attest calls on one real attester over <=8 validators and <=4 epochs: re-delivery of a slot, re-assignment of a validator within the epoch, late duties of the previous epoch, overlapping runs released from a gate, attestation data scripted as ok/error/wrong slot/target above or below the duty epoch/source above target (unique block root per reply), failures of the accounts provider, per-validator signing faults and submission; every SignBeaconAttestations request recorded at the signer boundary. distinct = (runs, data kinds, repeat/skip/overlap/account-kind flags, requests, submissions); non-trivial = some validator has two duties in one epoch or some validator is skipped",
-		Batches:  func(string) int { return 8 },
-		Parallel: 8,
-		Run:      run,
+		Property:    "C01",
+		Level:       "exploration",
+		Rule:        "histories of 2-10 Attest calls on one real attester over <=8 validators and <=4 epochs: re-delivery of a slot, re-assignment of a validator within the epoch, late duties of the previous epoch, overlapping runs released from a gate, attestation data scripted as ok/error/wrong slot/target above or below the duty epoch/source above target (unique block root per reply), failures of the accounts provider, per-validator signing faults and submission; every SignBeaconAttestations request recorded at the signer boundary. distinct = (runs, data kinds, repeat/skip/overlap/account-kind flags, requests, submissions); non-trivial = some validator has two duties in one epoch or some validator is skipped",
+		Batches:     func(string) int { return 8 },
+		Parallel:    8,
+		Run:         run,
 		MinDistinct: 100,
 		Assumptions: []string{"a duty for epoch e is never started after an attestation for epoch e+2 has completed (slot-timed jobs; the service deliberately forgets e-2)", "BLS verification (herumi) and the reference SSZ merkleisation are trusted", "when a beacon node lists one validator twice in a duty either of its entries is accepted"},
 	})
